@@ -395,3 +395,53 @@ impl Pool {
         Ok(())
     }
 }
+
+/// Verification hook (H2): lets an external harness drive the real responder path
+/// ([`Worker::_process`] with [`FetchRequest::Responder`]) and the git request header parser
+/// without running a node.
+#[cfg(feature = "verif")]
+pub mod verif {
+    use super::*;
+
+    pub use super::upload_pack::pktline::{git_request, GitRequest};
+
+    /// Run the real responder admission and upload path for one incoming stream.
+    pub fn responder(
+        nid: NodeId,
+        storage: Storage,
+        policies: policy::Config<policy::store::Read>,
+        handle: Handle,
+        remote: NodeId,
+        stream: StreamId,
+        channels: Channels,
+    ) -> FetchResult {
+        let (_tx, tasks) = chan::unbounded();
+        let notifications = notifications::StoreWriter::memory().expect("memory store");
+        let mut worker = Worker {
+            nid,
+            storage,
+            fetch_config: FetchConfig {
+                limit: FetchLimit::default(),
+                local: nid,
+                expiry: garbage::Expiry::default(),
+            },
+            tasks,
+            handle: handle.clone(),
+            policies,
+            notifications: notifications.clone(),
+            cache: cob::cache::StoreWriter::memory().expect("memory store"),
+            db: radicle::node::Database::memory().expect("memory store"),
+        };
+        let channels = channels::ChannelsFlush::new(handle, channels, remote, stream);
+
+        worker._process(
+            FetchRequest::Responder {
+                remote,
+                emitter: Emitter::default(),
+            },
+            stream,
+            channels,
+            notifications,
+        )
+    }
+}
